@@ -1232,3 +1232,58 @@ func IndexLoopsCoverList(p *load.Prog, r *oblig.Report, rule string, funcs []*ss
 	}
 	_ = bad
 }
+
+// RejectionReasons (R5.5r): the distinct reasons for which the reachable functions of a package reject their input —
+// the format strings of the fmt.Errorf calls they return, and the package-level errors they return as they are (per
+// function). Counted as instances so that the floor of the rule is the number of reasons confirmed by reading:
+// merging four identical sites into one helper keeps the count, dropping or merging away a reason lowers it.
+func RejectionReasons(p *load.Prog, r *oblig.Report, rule, pkg string, funcs []*ssa.Function) {
+	seen := map[string]bool{}
+	for _, f := range funcs {
+		if f.Pkg == nil || f.Pkg.Pkg.Name() != pkg {
+			continue
+		}
+		ei := returnsError(f)
+		if ei < 0 {
+			continue
+		}
+		var visit func(v ssa.Value, at ssa.Instruction, depth int)
+		visit = func(v ssa.Value, at ssa.Instruction, depth int) {
+			if depth > 5 {
+				return
+			}
+			key := ""
+			switch x := v.(type) {
+			case *ssa.Phi:
+				for _, e := range x.Edges {
+					visit(e, at, depth+1)
+				}
+				return
+			case *ssa.Call:
+				if c := x.Common().StaticCallee(); c != nil && c.Pkg != nil && c.Pkg.Pkg.Path() == "fmt" && c.Name() == "Errorf" && len(x.Common().Args) > 0 {
+					if k, ok := x.Common().Args[0].(*ssa.Const); ok && k.Value != nil && k.Value.Kind() == constant.String {
+						key = "format:" + constant.StringVal(k.Value)
+					}
+				}
+			case *ssa.UnOp:
+				if g, ok := x.X.(*ssa.Global); ok && x.Op == token.MUL {
+					key = f.Name() + ":" + g.Name()
+				}
+			}
+			if key != "" && !seen[key] {
+				seen[key] = true
+				r.OK(rule, "rejection-reason:"+key, p.Pos(at.Pos()), "distinct-reason", key)
+			}
+		}
+		for _, b := range f.Blocks {
+			for _, in := range b.Instrs {
+				if ret, ok := in.(*ssa.Return); ok && ei < len(ret.Results) {
+					visit(ret.Results[ei], ret, 0)
+				}
+			}
+		}
+	}
+	if len(seen) == 0 {
+		r.Unknown(rule, "rejection-reason", "-", "no rejection found in package "+pkg+": anchors no longer resolve")
+	}
+}
